@@ -88,6 +88,12 @@ check("C13", "import-sim", "exploration",
       "The Pallas chain-sync client and sockets are replaced by a server model behind ChainBlockReader; an import that returns an error is followed by a process restart (a failed import retried by the same process is outside the statement; observed, not judged); in pruning runs forks are at most keep-14 deep.",
       "DESIGN.md section 4 C13, sim-import/REPORT.md")
 
+check("C06", "net-sim", "exploration",
+      "deterministic simulation of the registration network (arrival permutations, duplicates, re-registration, partial registration, aggregator restarts between registrations) with a multi-node agreement invariant over three real computation paths and a paired-run history check (same history, registrations arriving in the opposite order)",
+      "In every simulated epoch the aggregate key in the aggregator's certificates is compared with (a) the key derived from the acknowledged registrations, (b) the key a signer derives from the signer list published on /epoch-settings (JSON in the loop) in served, reversed, shuffled and JSON-round-tripped order, together with total stake and each party's signer slot, (c) the message the client's MessageBuilder re-computes from the downloaded stake-distribution artifact; distinct registration sets must give distinct keys; every run is re-executed with the registration deliveries of each round reversed and must give bit-identical keys per epoch.",
+      "Signers are light actors built on the repository's SignerBuilder / ProtocolInitializer (the real signer node's epoch service is not in the loop); permuted groups never span a tick, because arrival relative to the rotation of the registration round matters by design.",
+      "DESIGN.md section 4 C06")
+
 def manifest():
     checks = []
     for pid in sorted(CHECKS):
